@@ -4,18 +4,18 @@
        deliver, drop, duplicate and reorder every datagram (Model/TwoAgents.v): if no pair of
        endpoints is reachable in both directions, then after EVERY schedule neither full agent holds
        a Succeeded pair, neither has a selected pair, and neither is Connected or Disconnected;
-   (2) two-agent REACHABILITY of valid pairs, same composed model, ANY topology: under every schedule in
-       which no signalled candidate supersedes a peer-reflexive one (see sys_run_ok), every valid
-       (Succeeded) pair of either full agent -- in particular the selected pair -- joins a local socket and
-       a remote address whose endpoints reach each other in BOTH directions;
+   (2) two-agent REACHABILITY of valid pairs, same composed model, ANY topology: under every admissible
+       schedule (sys_run_ok: the remote candidates handed to an agent are fresh objects, and a datagram
+       arrives on a socket of its own address family -- signalled candidates may supersede peer-reflexive
+       ones), every valid (Succeeded) pair of either full agent -- in particular the selected pair -- joins
+       a local socket and a remote address whose endpoints reach each other in BOTH directions;
    (3) single agent, every state: a pair BECOMES selected only while an inbound STUN datagram is
        handled -- every other operation keeps the selection or drops it.
    Decided by the extracted monitor C01.* on runs of two REAL agents over a harness-owned network
    (suite "pair": random topologies with NATed endpoints and one-way links, loss / duplication /
    reordering, restarts), each agent's half being simultaneously checked against the core model:
    mirror images at quiescence and both Connected after a fair loss-free suffix.  Not proved: the
-   mirror-image and liveness parts, (1) and (2) for lite agents, and (2) for schedules with superseding
-   (needs identity invariants for remote candidates). *)
+   mirror-image and liveness parts, and (1), (2) for lite agents. *)
 From Coq Require Import ZArith Bool List.
 From Ice Require Import Model.AgentTypes Model.AgentCore Model.PairMonitor Model.TwoAgents Gen.Consts Proofs.AgentFrame Proofs.AgentC01 Proofs.TwoAgentsProofs Proofs.TwoAgentsReach.
 Import ListNotations.
@@ -76,9 +76,12 @@ Module C01_example_two_agents.
   Proof. vm_compute. reflexivity. Qed.
   Example both_ways : view (true, true) = (ConnectionStateConnected, Some 1, ConnectionStateConnected, Some 1).
   Proof. vm_compute. reflexivity. Qed.
-  (* the schedule is admissible for the reachability theorem (nothing is superseded) *)
+  (* the schedule is admissible for the reachability theorem *)
   Example schedule_admissible : sys_run_ok (cfg 5) (cfg 6) (topo (true, true)) (sys_init 1 2 3 4) sched.
-  Proof. vm_compute. repeat split. Qed.
+  Proof.
+    vm_compute. repeat split; try (intros [] ; discriminate); try (intros l El; injection El as <-; reflexivity);
+      try (intros l El; discriminate El); try (intros H; destruct H as [H|[]]; discriminate H); try (intros []).
+  Qed.
 End C01_example_two_agents.
 
 (* the pair monitor's mirror check is symmetric in the two sides' views of one (A endpoint, B endpoint) pair *)
